@@ -35,6 +35,7 @@ INVARIANT MeshLeCap
 INVARIANT SearchMeshLeqPoll
 INVARIANT TolMeshMsg
 INVARIANT HistoryCount
+INVARIANT ResultInHistory
 INVARIANT TypeOK
 PROPERTY Terminates
 PROPERTY IncumbentMonotone
